@@ -194,13 +194,16 @@ fn km_cases(max_len: usize) -> Vec<KmCase> {
         ("line1d", line1, vec![vec![vec![0.0], vec![6.0], vec![10.0]], vec![vec![3.0], vec![3.0], vec![8.0]], vec![vec![-1.0], vec![1.0], vec![4.0]]]),
         ("cube3d", cube3, vec![vec![vec![0.0, 0.0, 0.0], vec![4.0, 4.0, 4.0], vec![1.0, 0.0, 0.0]]]),
     ];
-    let tolerances = vec![1e-4, 1.0, 2.0, 100.0];
+    // tolerances below and above 1: tolerance and tolerance^2 straddle many observed shifts
+    let tolerances = vec![1e-4, 0.5, 1.0, 2.0, 3.0, 100.0];
     let mut out = Vec::new();
+    for metric in ["L2", "L1", "Linf"] {
     for (name, pool, inits) in &pools {
         for k in 1..=3usize {
             for ic in inits {
                 out.push(KmCase {
                     pool_name: name.to_string(),
+                    metric: metric.to_string(),
                     pool: pool.clone(),
                     k,
                     init: "precomputed".into(),
@@ -216,6 +219,7 @@ fn km_cases(max_len: usize) -> Vec<KmCase> {
                 for (seed, n_runs) in [(42u64, 1usize), (7, 3), (1234567, 10)] {
                     out.push(KmCase {
                         pool_name: name.to_string(),
+                        metric: metric.to_string(),
                         pool: pool.clone(),
                         k,
                         init: init.into(),
@@ -229,6 +233,7 @@ fn km_cases(max_len: usize) -> Vec<KmCase> {
                 }
             }
         }
+    }
     }
     out
 }
@@ -322,8 +327,8 @@ fn main() {
          Naive Bayes: datasets = every multiset of n rows over the symbols (feature vector in {0,1,2,3}^p, label in {0,1,2}) for p=1 (n<=5 quick / n<=6 thorough) and p=2 (n<=3 / n<=4), fed in 1 / 3 row orders \
          (label-major, feature-major, riffle), x {gaussian var_smoothing 0, 1e-9, 1e-3; multinomial alpha 0, 0.5, 1}; per dataset EVERY composition of the rows into ordered non-empty batches \
          (prefix-sharing state graph: state = (rows consumed, sufficient statistics), transition = fit_with on the next s rows for every s; states with bit-identical statistics are merged). \
-         k-means: 4 pools (2-d lattice, 2-d generic position, 1-d, 3-d) of 4 tiny batches, every batch sequence of length <= 3 / 4, k in {1,2,3}, precomputed initial centroids (incl. duplicated ones) / seeded k-means++ / seeded random, \
-         tolerances {1e-4, 1, 2, 100}. FTRL: pool of 4 batches (3 features), every sequence of length <= 3 / 4, alpha {0.005,0.5,1} x beta {0,1} x l1 {0,0.5,1} x l2 {0,0.5,1} x 3 initial z (two scripted, with |z| exactly on the l1 boundary, one as drawn by the crate's default generator). \
+         k-means: distance function in {L2Dist, L1Dist, LInfDist} x 4 pools (2-d lattice, 2-d generic position, 1-d, 3-d) of 4 tiny batches, every batch sequence of length <= 3 / 4, k in {1,2,3}, precomputed initial centroids (incl. duplicated ones) / seeded k-means++ / seeded random, \
+         tolerances {1e-4, 0.5, 1, 2, 3, 100}. FTRL: pool of 4 batches (3 features), every sequence of length <= 3 / 4, alpha {0.005,0.5,1} x beta {0,1} x l1 {0,0.5,1} x l2 {0,0.5,1} x 3 initial z (two scripted, with |z| exactly on the l1 boundary, one as drawn by the crate's default generator). \
          non-trivial = the transition updates a non-empty previous model (a genuinely incremental step) or is a step of a fresh full-history replay.",
     );
     ctx.assume("oracle NB: own textbook estimates from the consumed rows (class frequencies; per-class mean and population variance + var_smoothing x largest population variance of a feature over all consumed rows; summed counts and (count+alpha)/(total+alpha*p)); class_count exact, prior 1e-12, theta / feature_log_prob relative 1e-9 (+1e-12 absolute), multinomial feature_count bit-exact");
@@ -332,7 +337,7 @@ fn main() {
     ctx.assume("the incremental-vs-batch prediction comparison is ASSERTED for Gaussian var_smoothing <= 1e-9 and for the multinomial model; for var_smoothing = 1e-3 clear-margin label differences are only MEASURED (coverage key gnb_smoothing_1e-3_clear_margin_flips_measured); a panic of predict on an incrementally fitted model whose textbook variances are all positive is reported for every var_smoothing > 0");
     ctx.assume("domain: predictions are compared only where the reference posterior is defined (every textbook smoothed variance > 0; every multinomial feature probability > 0); other states count as out_of_domain (their statistics are still compared)");
     ctx.assume("non-finite statistics pass through the serde image as null: an observed non-finite value matches any expected non-finite value");
-    ctx.assume("oracle k-means: from the previous state of the subject (checked before), assign every batch row to the nearest previous centroid, then in row order count[c] += 1, c += (x - c)/count[c]; centroids 1e-12 (relative and absolute), counts exact; centroids equidistant within 1e-12 relative are a choice (every admissible combination accepted, at most 256 combinations, else indeterminate); Ok iff own shift sqrt(sum (c_new - c_old)^2) < tolerance, shifts within 1e-12 relative of the tolerance but not equal to it are indeterminate; inertia = mean squared distance of the batch rows to the nearest PREVIOUS centroid (1e-12)");
+    ctx.assume("oracle k-means: from the previous state of the subject (checked before), assign every batch row to the nearest previous centroid (own reduced distance of the configured metric: squared Euclidean / sum of |d| / max |d|), then in row order count[c] += 1, c += (x - c)/count[c]; centroids 1e-12 (relative and absolute), counts exact; centroids equidistant within 1e-12 relative are a choice (every admissible combination accepted, at most 256 combinations, else indeterminate); Ok iff own shift < tolerance, shift = distance of the configured metric between the old and new centroid MATRIX as the subject's Distance::distance defines it on 2-d views (Frobenius norm for L2, sum of all |differences| for L1, largest |difference| for Linf), shifts within 1e-12 relative of the tolerance but not equal to it are indeterminate; inertia = mean reduced distance (squared for L2) of the batch rows to the nearest PREVIOUS centroid (1e-12)");
     ctx.assume("seeded k-means initialisation is not part of the property: the observed first model must follow by the recurrence from SOME choice of k rows of the first batch as initial centroids (k distinct rows for random, any k rows for k-means++); a random initialisation from a first batch with fewer than k rows is out of domain");
     ctx.assume("oracle FTRL: from the previous (z, n) of the subject: w = 0 if |z| <= l1 else (sign(z) l1 - z)/((sqrt(n)+beta)/alpha + l2); p_i = sigmoid(clamp(x_i.w, +-35)) rounded to f32; g = sum_i (p_i - y_i) x_i; sigma = (sqrt(n+g^2) - sqrt(n))/alpha; z' = z + g - sigma w; n' = n + g^2; tolerance 1e-6 x (1 + magnitude of the operands); get_weights() exactly 0 wherever |z| <= l1 (exact comparison on the subject's own z), else the closed form to 1e-12; states whose reference weights are not finite (beta = 0, l2 = 0, n = 0, |z| > l1) are out of domain");
     ctx.assume("the initial z of FTRL is drawn by the subject from a generator supplied by the check that replays chosen dyadic values (rand 0.8 uniform f64 = (u64 >> 12) / 2^52); Ftrl::new is checked to produce exactly these values");
@@ -381,7 +386,7 @@ fn main() {
     par_sweep(&ctx, "k-means", &kc, |c| {
         let mut out = Out::default();
         km::run_km(c, &mut out);
-        ctx.sample(|| json!({"family": "kmeans", "pool": c.pool_name, "k": c.k, "init": c.init, "init_centroids": c.init_centroids, "seed": c.seed, "tolerances": c.tolerances, "max_len": c.max_len}));
+        ctx.sample(|| json!({"family": "kmeans", "metric": c.metric, "pool": c.pool_name, "k": c.k, "init": c.init, "init_centroids": c.init_centroids, "seed": c.seed, "tolerances": c.tolerances, "max_len": c.max_len}));
         flush(&ctx, &agg, out, 1);
     });
     let km_done = agg.cases.swap(0, Ordering::Relaxed);
